@@ -1,6 +1,10 @@
-(* C01: the clauses of "the order is PEP 440's", each stated on its own about VCmp.pep440_cmp (so that none of them is true merely
-   because a reader trusts the definition): epoch first; then the release, numerically and zero-padded; then the ladder
-   dev-only < a < b < rc < final < post; ".devM just below" and ".postM just above" the thing it is attached to; the local-label rules. *)
+(* C01: the clauses of "the order is PEP 440's", each stated on its own about VCmp.pep440_cmp, so that a reader checks one rule at a time instead of
+   the nested definition: epoch first; then the release, numerically and zero-padded; then the ladder dev-only < a < b < rc < final < post;
+   ".devM just below" and ".postM just above" the thing it is attached to; the local-label rules.  All are consequences of the definition; the lemmas
+   proved by `reflexivity` (strip0_is_strip, local_none_first, local_num_above_alnum, local_num_by_value) merely restate a line of it.
+   ladder_devonly_pre / ladder_pre_number / ladder_pre_final take an arbitrary letter l: for a letter outside {a, b, rc} they hold through letter_rank's
+   default; the `_ops` forms in Properties/C01.v are about parsed versions, where the letter is always one of the three (VWf.meaning_wf).
+   The post / dev NUMBER rungs for versions that have a pre part are in VClauses2.v. *)
 From Coq Require Import List Arith NArith Bool Lia.
 Import ListNotations.
 Require Import S1 Py VCmp Order.
